@@ -436,6 +436,47 @@ fn dispatch(cmd: &str, a: &Args) -> i32 {
         "replay" => replay(a),
         "minimise" => minimise::run(a),
         "distinct" => distinct(a),
+        // is the violation of a replay file realisable on real threads / one thread?
+        "confirm" => {
+            let path = a.pos.get(1).cloned().unwrap_or_else(|| die("confirm needs a file"));
+            let text = std::fs::read_to_string(&path).unwrap_or_else(|e| die(&format!("{path}: {e}")));
+            let rf: ReplayFile = serde_json::from_str(&text).unwrap_or_else(|e| die(&format!("{path}: {e}")));
+            let Some(sc) = rf.scenario.clone() else { die("confirm needs a scenario") };
+            let (ok, how) = c18::confirm(&sc, &rf.class, a.u64("tries", 3000));
+            println!("{} {how}", if ok { "CONFIRMED" } else { "UNCONFIRMED" });
+            if ok { 1 } else { 0 }
+        }
+        // diagnostic: parse generated inputs twice in a row on one parser, count differing pairs
+        "probe-repeat" => {
+            let p = c18::build_parser(&scenario::ParserCfg { ext_bits: scenario::EXT_ALL, converter: "bundled".into() });
+            let n = a.u64("n", 2000);
+            let mut diff = 0;
+            let mut refnf = 0;
+            let mut none = 0;
+            for i in 0..n {
+                let mut r = rng::Rng::new(rng::mix2(77, i));
+                let text = if a.flag("large") { gen::recipe_large(&mut r) } else { gen::recipe(&mut r) };
+                let a1 = format!("{:?}", std::panic::catch_unwind(std::panic::AssertUnwindSafe(|| p.parse(&text))).ok());
+                let a2 = format!("{:?}", std::panic::catch_unwind(std::panic::AssertUnwindSafe(|| p.parse(&text))).ok());
+                if a1 != a2 {
+                    diff += 1;
+                }
+                if a1.contains("Reference not found") {
+                    refnf += 1;
+                }
+                if a1.contains("output: None") {
+                    none += 1;
+                    if a.flag("why") {
+                        let r = p.parse(&text);
+                        for e in r.report().errors() {
+                            println!("ERR {}", e.message);
+                        }
+                    }
+                }
+            }
+            println!("pairs={n} differing={diff} with_reference_not_found={refnf} without_output={none}");
+            0
+        }
         "realthreads" => {
             // regenerate the scenario of a run index and execute it on real OS threads
             let pool = Pool::load(&a.str("repo", "/repo"));
